@@ -202,8 +202,13 @@ LogOk(s, m) ==
 
 \* sticky: the voter ignores the request (valid lease or recent leader contact); a free
 \* choice of the environment, see DESIGN.md 3.5
-HandleRV(s, m, sticky) ==
-  LET reject(st) == [s |-> st, reply |-> [term |-> st.term, ok |-> FALSE]] IN
+\* (a leader that is the only member renews its lease at every heartbeat tick, without anybody's
+\* answer: its lease never lapses and it ignores every vote request - e.g. of the server it has
+\* just removed; found as conformance drift of a replayed membership behaviour)
+AlwaysSticky(s) == s.role = "L" /\ MembersOf(s) = {s.me}
+HandleRV(s, m, sticky0) ==
+  LET sticky == sticky0 \/ AlwaysSticky(s)
+      reject(st) == [s |-> st, reply |-> [term |-> st.term, ok |-> FALSE]] IN
   \* (weakening StickyPrevoteOnly: the recent-contact guard applied to prevotes only)
   IF sticky /\ "NoStickiness" \notin W /\ ("StickyPrevoteOnly" \notin W \/ m.pre) THEN reject(s)
   ELSE IF m.term < s.term THEN reject(s)
